@@ -466,6 +466,14 @@ class Zeroconf(QuietLogger):
         assert info.server_key is not None
         entries = self.registry.async_get_infos_server(info.server_key)
         broadcast_addresses = not bool(entries)
+        # Answers queued for a query that arrived before the service was removed
+        # must not go out after the goodbye, or they bring the service back to life
+        withdrawn = {info.dns_pointer(): set(), info.dns_service(): set(), info.dns_text(): set()}
+        if broadcast_addresses:
+            for record in info.get_address_and_nsec_records():
+                withdrawn[record] = set()
+        self.out_queue._remove_answers_from_queue(withdrawn)
+        self.out_delay_queue._remove_answers_from_queue(withdrawn)
         return asyncio.ensure_future(
             self._async_broadcast_service(info, _UNREGISTER_TIME, 0, broadcast_addresses)
         )
